@@ -7,8 +7,8 @@ ids="$@"; [ -z "$ids" ] && ids=$(ls /verif/refactors/r*.diff | xargs -n1 basenam
 wt=/tmp/evalrf.$$
 git -C /repo worktree add -q --detach $wt HEAD || exit 2
 cd /verif
-rm -rf /tmp/evidence.keep.$$; cp -r /verif/evidence /tmp/evidence.keep.$$
-trap 'rm -rf /verif/evidence; cp -r /tmp/evidence.keep.$$ /verif/evidence; rm -rf /tmp/evidence.keep.$$; git -C /repo worktree remove --force '$wt EXIT
+export VERIF_EVIDENCE=/tmp/evidence.eval.$$   # evidence of these runs is scratch
+trap 'rm -rf /tmp/evidence.eval.$$; git -C /repo worktree remove --force '$wt EXIT
 for id in $ids; do
   f=/verif/refactors/$id.diff
   if ! git -C $wt apply --check $f 2>/dev/null; then echo "$id: patch does not apply"; continue; fi
